@@ -156,7 +156,7 @@ CASE_CPU_S = [float(os.environ.get("VERIF_CASE_CPU_S", "30"))]   # after the fir
 FORCE_LINE_GUARD = [False]      # read by vlib.agp.Run: bound every solver call by executed lines
 
 
-def run_case(body, case):
+def run_case(body, case, cpu_s=None):
     """body(case) under a CPU-time alarm.  A case that burns CASE_CPU_S seconds of CPU (cases take milliseconds to
     a few seconds; 30 s, then 8 s once an alarm has fired in the process) is abandoned - whatever it returned or raised after the alarm is discarded, because
     Process.Solve swallows the alarm like any other exception - and re-run once, without a clock, with every solver
@@ -173,7 +173,8 @@ def run_case(body, case):
         old = signal.signal(signal.SIGVTALRM, on_alarm)
     except ValueError:          # not in the main thread: no alarm available
         return guarded(body, case)
-    signal.setitimer(signal.ITIMER_VIRTUAL, CASE_CPU_S[0], CASE_CPU_S[0])
+    limit = max(CASE_CPU_S[0], cpu_s or 0.0)
+    signal.setitimer(signal.ITIMER_VIRTUAL, limit, limit)
     try:
         try:
             res = guarded(body, case)
@@ -207,7 +208,7 @@ def hyp_settings(max_examples, stateful_steps=None, shrink=True):
     return settings(**kw)
 
 
-def hyp_run(ctx, strategy, body, max_examples, shrink_calls=None, salt=0):
+def hyp_run(ctx, strategy, body, max_examples, shrink_calls=None, salt=0, cpu_s=None):
     """Drive body(case) -> (nontrivial, classes[, sample]) over `strategy`.
     The first failure is shrunk within a bounded number of further executions; the smallest
     *really failing* case seen is what gets reported."""
@@ -229,7 +230,7 @@ def hyp_run(ctx, strategy, body, max_examples, shrink_calls=None, salt=0):
             with open(os.path.join(trace_dir, "%s-%d.json" % (ctx.kind, os.getpid())), "w") as f:
                 json.dump({"t": time.time(), "case": jsonable(case)}, f)
         try:
-            res = run_case(body, case)
+            res = run_case(body, case, cpu_s)
         except Violation as v:
             st["best"] = (jsonable(case), str(v))
             raise
